@@ -188,8 +188,15 @@ pub fn render(sc: &Value) -> Rendered {
             let lz = gu(&body, "lz");
             let bad_what = if fkind == "bad" { gs(&fault_v, "what").to_string() } else { String::new() };
             let bad_chunk = gu(&fault_v, "chunk");
+            // bare LF instead of CRLF after size lines ("size"), after chunk data and the last line ("term"), or both
+            // ("all"): outside the RFC grammar but unambiguous - faultKind "lenient"
+            let lf = gs(&body, "lf").to_string();
+            let eol_size: &[u8] = if lf == "size" || lf == "all" { b"\n" } else { b"\r\n" };
+            let eol_term: &[u8] = if lf == "term" || lf == "all" { b"\n" } else { b"\r\n" };
             let mut off = 0usize;
             let mut aborted = false;
+            // size lines carrying a chunk extension: an extension absorbs arbitrary octets
+            let mut ext_ranges: Vec<(usize, usize)> = Vec::new();
             for (i, &sz) in sizes.iter().enumerate() {
                 let mut line = String::new();
                 for _ in 0..lz {
@@ -202,6 +209,7 @@ pub fn render(sc: &Value) -> Rendered {
                 }
                 if exts.get(i % exts.len().max(1)).and_then(|x| x.as_bool()).unwrap_or(false) {
                     line.push_str(";ext=1");
+                    ext_ranges.push((wire.len(), wire.len() + line.len() + eol_size.len()));
                 }
                 if !bad_what.is_empty() && bad_chunk == i {
                     match bad_what.as_str() {
@@ -240,7 +248,7 @@ pub fn render(sc: &Value) -> Rendered {
                     }
                 }
                 wire.extend_from_slice(line.as_bytes());
-                wire.extend_from_slice(b"\r\n");
+                wire.extend_from_slice(eol_size);
                 for j in 0..sz {
                     data_pos.push(wire.len() + j);
                 }
@@ -257,7 +265,7 @@ pub fn render(sc: &Value) -> Rendered {
                     // a bare LF after chunk data is tolerated by the client; not a defect for the spec
                     wire.extend_from_slice(b"\n");
                 } else {
-                    wire.extend_from_slice(b"\r\n");
+                    wire.extend_from_slice(eol_term);
                 }
                 cw.push(wire.len());
                 cd.push(off);
@@ -286,13 +294,34 @@ pub fn render(sc: &Value) -> Rendered {
                     let mut last = String::from("0");
                     if gb(&body, "lastext") {
                         last.push_str(";last");
+                        ext_ranges.push((wire.len(), wire.len() + last.len() + eol_size.len()));
                     }
                     wire.extend_from_slice(last.as_bytes());
-                    wire.extend_from_slice(b"\r\n");
+                    wire.extend_from_slice(eol_size);
                     for t in ga(&body, "trailers") {
                         wire.extend_from_slice(format!("{}: {}\r\n", t[0].as_str().unwrap(), t[1].as_str().unwrap()).as_bytes());
                     }
-                    wire.extend_from_slice(b"\r\n");
+                    wire.extend_from_slice(eol_term);
+                }
+                if bad_what == "corrupt" && ga(&body, "trailers").is_empty() {
+                    // one framing octet (size digits, CR, LF - outside chunk extensions) replaced by an octet that no
+                    // reading of the chunked grammar accepts at that place
+                    let fpos: Vec<usize> = (head_end..wire.len())
+                        .filter(|p| data_pos.binary_search(p).is_err() && !ext_ranges.iter().any(|&(a, b)| *p >= a && *p < b))
+                        .collect();
+                    if !fpos.is_empty() {
+                        let p = fpos[gu(&fault_v, "pos") % fpos.len()];
+                        let oct = guo(&fault_v, "octet").unwrap_or(0x58) as u8;
+                        if wire[p] != oct {
+                            wire[p] = oct;
+                            bad_at = Some(p);
+                            valid_data_end = data_pos.iter().filter(|&&d| d < p).count();
+                            while cw.last().map(|&c| c > p).unwrap_or(false) {
+                                cw.pop();
+                                cd.pop();
+                            }
+                        }
+                    }
                 }
             }
         }
@@ -324,7 +353,7 @@ pub fn render(sc: &Value) -> Rendered {
             0
         }
     };
-    let mut spec_fault = "none".to_string();
+    let mut spec_fault = if kind == "chunked" && !gs(&body, "lf").is_empty() && coding == "identity" { "lenient".to_string() } else { "none".to_string() };
     match fkind.as_str() {
         "cut" => {
             fault_at = at(&fault_v).min(wire.len());
@@ -442,8 +471,32 @@ pub fn render(sc: &Value) -> Rendered {
     Rendered { wire, truth, script, fault, head_fields: fields }
 }
 
+/// Formatting the error is an API call too (Display, Debug, source chain): it is exercised on every
+/// error the harness sees; a panic in it is reported as kind "PANIC:<message>".
+pub fn fmt_probe(e: &attohttpc::Error) -> Option<String> {
+    let r = catch_unwind(AssertUnwindSafe(|| {
+        use std::error::Error as _;
+        let mut n = format!("{}", e).len() + format!("{:?}", e).len() + format!("{:#?}", e).len();
+        let mut src = e.source();
+        let mut depth = 0;
+        while let Some(s) = src {
+            n += format!("{}", s).len();
+            src = s.source();
+            depth += 1;
+            if depth > 64 {
+                break;
+            }
+        }
+        n
+    }));
+    r.err().map(|p| format!("PANIC:fmt:{}", panic_msg(&p)))
+}
+
 pub fn err_kind(e: &attohttpc::Error) -> String {
     use attohttpc::ErrorKind as K;
+    if let Some(p) = fmt_probe(e) {
+        return p;
+    }
     match e.kind() {
         K::Io(e) => format!("Io:{:?}", e.kind()),
         K::InvalidResponse(k) => format!("InvalidResponse:{:?}", k),
